@@ -63,6 +63,8 @@ KINDS = {
     "d_i24": "uint8 {n}_n; int24 {n}[{n}_n];",
     "d_expr": "uint8 {n}_a; uint8 {n}_b; char {n}[{n}_a * 2 + {n}_b];",
     "d_inner": "uint8 {n}_n; inner {n}[{n}_n];",
+    "d_blk": "uint8 {n}_n; char {n}[{n}_n]; uint8 {n}_a; uint32 {n}_b;",
+    "d_blk2": "uint8 {n}_n; uint16 {n}[{n}_n]; uint8 {n}_a[3]; int48 {n}_b;",
     "z_char": "char {n}[];",
     "z_u16": "uint16 {n}[];",
     "z_wchar": "wchar {n}[];",
@@ -97,7 +99,7 @@ EOF_KINDS = {"eof_u8", "eof_u16", "eof_char"}
 QUICK = [
     "u8", "u16", "i32", "u64", "i24", "u48", "i128", "f32", "char", "wchar", "uleb", "e8", "ptr",
     "a_u16_3", "a_char_4", "a_i24_2", "d_u16", "d_char", "z_char", "inner", "dyn", "anon_s", "a_inner_2",
-    "b16_full", "b8_part", "b32_sw8", "b16_sw8_2",
+    "b16_full", "b8_part", "b32_sw8", "b16_sw8_2", "d_blk",
 ]
 
 
